@@ -34,10 +34,10 @@ def run(tier, replay=None):
         rows = [rp['row']]
         corpus = None
     else:
-        corpus, sv, vectors, stats = V.build(tier, k=1 if tier == 'quick' else 6)
+        corpus, sv, vectors, stats = V.build(tier, k=1 if tier == 'quick' else 16)
         tables = declared_tables(corpus)
         seen_sites = set()
-        cap = 3 if tier == 'quick' else 12   # vectors per (object, field) site
+        cap = 3 if tier == 'quick' else 40   # vectors per (object, field) site
         persite = {}
         for v in vectors:
             if v['class'] != 'canonical':
